@@ -292,7 +292,7 @@ def run_scenario(run: Run, scen: dict, rng: random.Random):
 
 
 def check(run: Run, tier: str, seed: int):
-    n = 100 if tier == "quick" else 1200
+    n = 200 if tier == "quick" else 1200
     for i in range(n):
         cls, opts, semirings, exact = CLASSES[i % len(CLASSES)]
         srng = random.Random(f"C13-{seed}-{i}")
